@@ -15,6 +15,24 @@ func Cmp(g *G, n int) []Program {
 		neg := g.Bool()
 		// word-aligned family: the same top words, then one lower word from a small alphabet around the places where a
 		// 64-bit word comparison can go wrong (10^19 > 2^63: differences of two valid words do not fit an int64)
+		if i%10 == 3 {
+			// exponents exactly at the ends of the range against zeros, against each other and against their negations
+			ee := g.PickI64(-2147483648, -2147483648, 2147483647, -2147483647)
+			d := g.Digits(1 + g.R.Intn(25))
+			g.Load("r0", false, d, ee, 0, g.Mode())
+			g.Load("r1", true, d, ee, 0, g.Mode())
+			g.LoadSpecial("r2", "zero", g.Bool(), g.Pick(0, 5), g.Mode())
+			for _, a := range regs {
+				g.Emit(M{"op": "Preds", "x": a})
+				for _, b := range regs {
+					g.Emit(M{"op": "Cmp", "x": a, "y": b})
+				}
+			}
+			if g.Pending() >= 150 {
+				out = append(out, g.Flush("cmp"))
+			}
+			continue
+		}
 		aligned := g.R.Intn(4) == 0
 		top := g.Digits(19 * g.Pick(1, 1, 2, 3))
 		for j, r := range regs {
